@@ -110,7 +110,27 @@ def cased(w, case):
 
 
 def body(ch):
-    part = ch.pick('part', ('single', 'neutral', 'mixed', 'spurious'))
+    part = ch.pick('part', ('single', 'neutral', 'mixed', 'spurious', 'two-threads'))
+    if part == 'two-threads':
+        # two callers share the cached boolean model: every schedule with <= 1 preemption (every library call is a
+        # scheduling point) of two different queries; each caller must get what it gets alone
+        import os
+        from vmc import env, sched
+        qs = ['yes', 'Nope, thanks', 'well ok then', 'not ok']
+        a = ch.pick('query_a', qs)
+        b = ch.pick('query_b', qs)
+        if a == b:
+            ch.prune()
+        alone = {q: ents(q) for q in (a, b)}
+        plan, ex = sched.pick_and_run(ch, M.setdefault('counts', {}), (a, b), os.path.join(env.REPO, 'Python', 'libraries'), 'calls', 1,
+                                      [lambda q=a: ents(q), lambda q=b: ents(q)], chunk=50)
+        for tid, q in enumerate((a, b)):
+            got = ex.results[tid] if ex.errors[tid] is None else 'EXC ' + ex.errors[tid]
+            if got != alone[q]:
+                ch.fail('two-threads|differs-from-sequential', {'queries': [a, b], 'plan': plan, 'thread': tid, 'observed': got, 'alone': alone[q]})
+                return
+        ch.ok(case=(a, b, tuple(map(tuple, plan))), outcome='two-threads', evals=2)
+        return
     if part == 'single':
         w, pol, kind = ch.pick('expression', M['true'] + M['false'])
         if kind == 'word':
